@@ -146,7 +146,7 @@ import string as _string_mod
 _SAFE_MODULES = {'re': _re_mod, 'string': _string_mod}
 
 
-_BUILTIN_CALLS = frozenset(('id', 'hash', 'repr', 'list', 'tuple', 'set', 'frozenset', 'callable', 'hasattr', 'ord', 'chr', 'bin', 'hex', 'oct', 'pow', 'print', 'iter', 'next'))
+_BUILTIN_CALLS = frozenset(('setattr', 'delattr', 'id', 'hash', 'repr', 'list', 'tuple', 'set', 'frozenset', 'callable', 'hasattr', 'ord', 'chr', 'bin', 'hex', 'oct', 'pow', 'print', 'iter', 'next'))
 
 
 class GenList(list):
@@ -729,6 +729,19 @@ def ev(n, env, funcs=None):
                         return ctor([a0.call('__getitem__', i_) for i_ in range(a0.call('__len__'))])
                 elif isinstance(a0, (list, tuple, set, frozenset, range, str, dict)) or hasattr(a0, '__iter__'):
                     return ctor(a0)
+            if fname == 'setattr' and len(args) == 3 and isinstance(args[1], str):
+                o_ = args[0]
+                if isinstance(o_, Obj):
+                    o_.fields[args[1]] = args[2]          # (a string given to setattr is not name-mangled)
+                    return None
+                if isinstance(o_, PyStub):
+                    setattr(o_, args[1], args[2])
+                    return None
+            if fname == 'delattr' and len(args) == 2 and isinstance(args[1], str) and isinstance(args[0], Obj):
+                if args[1] not in args[0].fields:
+                    raise AttributeError(args[1])
+                del args[0].fields[args[1]]
+                return None
             if fname == 'callable' and len(args) == 1:
                 return callable(args[0]) or (isinstance(args[0], Obj) and '__call__' in args[0].methods)
             if fname == 'hasattr' and len(args) == 2 and isinstance(args[1], str):
